@@ -196,12 +196,12 @@ def run(rep, crate, cfg, want_logs=False):
             report_mem(rep, "C12-R2", cfg, merged, f.key, 3, "table look-ups indexed by u8 / log sums")
             reviewed.add(f.key)
         elif kind == "slab":
-            run_slab(rep, crate, cfg, f)
+            slab_self_checking = run_slab(rep, crate, cfg, f)
             reviewed.add(f.key)
     for f in fns:
         rep.check(f.key in reviewed, "C12-R5", f.key, "unreviewed-unsafe", f.loc(),
                   "%s contains unsafe code and is covered by an obligation generator" % f.key, None, cfg)
-    run_encapsulation(rep, crate, cfg)
+    run_encapsulation(rep, crate, cfg, locals().get("slab_self_checking", False))
     return all_logs
 
 
@@ -209,23 +209,28 @@ def run(rep, crate, cfg, want_logs=False):
 # paired borrow of the slab
 
 def run_slab(rep, crate, cfg, f):
+    """paired borrow: both raw slices in bounds and disjoint.  Proved from the checks the function itself performs
+    (no struct invariant is assumed: a deserialized slab may violate data.len() == count * symbol_size)."""
     R = "C12-R3"
     short = f.key.split("::")[-1]
     adtp = f.f["inputs"][0]["to"]["adt"]
     adt = crate.adts[adtp]
-    names = [fl["name"] for fl in adt["variants"][0]["fields"]]
     phys = [k for k, g in crate.fns.items() if g.f.get("impl_self", {}).get("adt") == adtp and g.argc == 2
             and g.f["output"].get("s") == "usize" and g.f["inputs"][1].get("s") == "usize"]
+    BIG = (1 << 63) - 1
 
-    def entry(order):
+    def entry(order, with_invariant=False):
         an = absint.Analysis(crate)
         st = absint.State()
-        count = an.atom_val("count", 0, 1 << 31)
-        ss = an.atom_val("symbol_size", 0, 1 << 31)
+        count = an.atom_val("count", 0, (1 << 31) if with_invariant else BIG)
+        ss = an.atom_val("symbol_size", 0, (1 << 31) if with_invariant else BIG)
         ca, sa = count.exact().single()[0], ss.exact().single()[0]
-        total = Aff.atom(an.prod_atom(ca, sa))
-        rng = an.rng_fn(st)
-        dlen = IntV(total.lo(rng), total.hi(rng), 64, False, total, total)
+        if with_invariant:
+            total = Aff.atom(an.prod_atom(ca, sa))
+            rng = an.rng_fn(st)
+            dlen = IntV(total.lo(rng), total.hi(rng), 64, False, total, total)
+        else:
+            dlen = an.atom_val("len(data)", 0, BIG)
         data = an.new_obj(st, absint.Obj("slice", IntV.top(8, False), dlen, esize=1, name="data"))
         fields = []
         for fl in adt["variants"][0]["fields"]:
@@ -238,9 +243,9 @@ def run_slab(rep, crate, cfg, f):
             else:
                 fields.append(absint.TOP)
         so = an.new_obj(st, absint.Obj("struct", fields=fields, name=adtp))
-        d = an.atom_val("dest_phys", 0, (1 << 63) - 1)
-        s = an.atom_val("src_phys", 0, (1 << 63) - 1) if order != "eq" else d
-        da, sa_ = d.exact().single()[0], s.exact().single()[0]
+        d = an.atom_val("dest_phys", 0, BIG)
+        s_ = an.atom_val("src_phys", 0, BIG) if order != "eq" else d
+        da, sa_ = d.exact().single()[0], s_.exact().single()[0]
         f0 = None
         if order == "lt":
             f0 = Aff(-1, {sa_: 1, da: -1})
@@ -248,50 +253,78 @@ def run_slab(rep, crate, cfg, f):
             f0 = Aff(-1, {da: 1, sa_: -1})
         if f0 is not None:
             an.facts.append(f0)
-            an.facts.append(an.scale_by_atom(f0, sa))    # the same relation multiplied by symbol_size >= 0
-        seq = [d, s]
-        # the logical -> physical map is opaque: its results are the two atoms above, in call order
+            if with_invariant:
+                an.facts.append(an.scale_by_atom(f0, sa))    # the same relation multiplied by symbol_size >= 0
+        seq = [d, s_]
         for p in phys:
             def h(an_, st_, fid, fn, t, args, record, seq=seq, cnt=[0]):
                 v = seq[min(cnt[0] % 2, 1)]
                 cnt[0] += 1
                 return v, st_
             an.summaries[p] = h
-        args = [absint.RefV(("obj", so, ()), True), an.atom_val("dest", 0, (1 << 63) - 1), an.atom_val("src", 0, (1 << 63) - 1)]
+        args = [absint.RefV(("obj", so, ()), True), an.atom_val("dest", 0, BIG), an.atom_val("src", 0, BIG)]
         an.stack.append((f.key, "entry " + order))
         an.run_fn(f, args, st)
         an.stack.pop()
         return an, st
     rep.floor(R, len(phys), 1, "logical->physical index map of the slab", cfg)
-    merged = {}
-    ranges = {}
-    for order in ("lt", "gt"):
-        an, st = entry(order)
-        for key, o in an.obls.items():
-            if key[1] != "mem":
-                continue
-            m = merged.setdefault(key, dict(o))
-            m["ok"] = m["ok"] and o["ok"]
-        ranges[order] = (an, list(an.raw_parts_log))
-    report_mem(rep, R, cfg, merged, f.key, 4, "dest < src and dest > src")
-    # disjointness of the two raw slices, in both orders
-    for order, (an, rl) in ranges.items():
-        ok = False
-        if len(rl) >= 2:
-            a, b = rl[0], rl[1]
-            rng = an.rng_fn(absint.State())
-            ea = norm(iadd(a["off"], a["bytes"]), rng)
-            eb = norm(iadd(b["off"], b["bytes"]), rng)
-            ok = le_proved(ea, b["off"], rng) or le_proved(eb, a["off"], rng)
-            ok = ok and (a["mut"] != b["mut"] or True)
-        rep.check(ok, R, f.key, "pair-disjoint-" + order, f.loc(),
-                  "%s: the mutable and the shared symbol range do not overlap when dest %s src" % (short, "<" if order == "lt" else ">"),
-                  {"ranges": [(repr(x["off"]), repr(x["bytes"])) for x in rl]}, cfg)
-    an, st = entry("eq")
-    rep.check(not an.raw_parts_log, R, f.key, "pair-distinct-enforced", f.loc(),
+    # 1. bounds, without any struct invariant
+    an, st = entry("any")
+    merged = {k: dict(o) for k, o in an.obls.items() if k[1] == "mem"}
+    self_checking = all(o["ok"] for o in merged.values()) and len(merged) >= 4
+    if not self_checking:
+        # fall back: bounds from the invariant data.len() == count * symbol_size (must then be established by every constructor)
+        merged = {}
+        for order in ("lt", "gt"):
+            an2, st2 = entry(order, with_invariant=True)
+            for key, o in an2.obls.items():
+                if key[1] != "mem":
+                    continue
+                m = merged.setdefault(key, dict(o))
+                m["ok"] = m["ok"] and o["ok"]
+        rep.assumptions.append("C12-R3: SymbolSlab invariant data.len() == count * symbol_size (established by every constructor, C12-R4)")
+    report_mem(rep, R, cfg, merged, f.key, 4, "from the function's own range checks" if self_checking else "from the struct invariant, dest < src and dest > src")
+    # 2. disjointness: either asserted on the very offsets used, or derived from dest != src under the invariant
+    tb = terms.TermBuilder(f)
+    N = lambda t: terms.normalise(terms.strip_casts(terms.simplify(t)))
+    rp = []
+    for bi, t in f.calls():
+        if (t.get("callee") or "").split("::")[-1] in ("from_raw_parts", "from_raw_parts_mut"):
+            ct = N(tb.call_term(bi, t))
+            off = terms.find(("call", terms.V("add", lambda x: isinstance(x, str) and x.endswith("::add")), (terms.V("p"), terms.V("o"))), ct[2][0])
+            rp.append((bi, off[0]["p"] if off else None, N(off[0]["o"]) if off else None, N(ct[2][1])))
+    asserted = False
+    if len(rp) == 2 and rp[0][1] == rp[1][1] and rp[0][3] == rp[1][3] and rp[0][2] is not None and rp[1][2] is not None:
+        w = rp[0][3]
+        want = [N(("op", "Le", w, ("call", "std::num::<impl usize>::abs_diff", (rp[0][2], rp[1][2])))),
+                N(("op", "Le", w, ("call", "std::num::<impl usize>::abs_diff", (rp[1][2], rp[0][2]))))]
+        for bi, _, _, _ in rp:
+            dnf = terms.path_dnf(tb, bi) or []
+            ok_here = bool(dnf) and all(any(v and terms.canon_cond(N(c), v)[0] in want for c, v in cj) for cj in dnf)
+            asserted = ok_here if bi == rp[0][0] else (asserted and ok_here)
+    if asserted:
+        rep.ok(R, f.loc(), "%s: the two raw slices start at offsets whose distance is asserted to be >= their length "
+               "(abs_diff(dest_start, src_start) >= symbol_size on every path): they cannot overlap" % short, None, cfg)
+    else:
+        for order in ("lt", "gt"):
+            an2, st2 = entry(order, with_invariant=True)
+            rl = list(an2.raw_parts_log)
+            ok = False
+            if len(rl) >= 2:
+                a, b_ = rl[0], rl[1]
+                rng = an2.rng_fn(absint.State())
+                ea = norm(iadd(a["off"], a["bytes"]), rng)
+                eb = norm(iadd(b_["off"], b_["bytes"]), rng)
+                ok = le_proved(ea, b_["off"], rng) or le_proved(eb, a["off"], rng)
+            rep.check(ok, R, f.key, "pair-disjoint-" + order, f.loc(),
+                      "%s: the mutable and the shared symbol range do not overlap when dest %s src" % (short, "<" if order == "lt" else ">"),
+                      {"ranges": [(repr(x["off"]), repr(x["bytes"])) for x in rl]}, cfg)
+    an3, st3 = entry("eq")
+    rep.check(not an3.raw_parts_log, R, f.key, "pair-distinct-enforced", f.loc(),
               "%s: with dest == src no slice is created (the call is refused)" % short,
-              {"created": len(an.raw_parts_log)}, cfg)
-    rep.assumptions.append("C12-R3: SymbolSlab invariant data.len() == count * symbol_size (established by every constructor, C12-R4)")
+              {"created": len(an3.raw_parts_log)}, cfg)
+    rep.analysed["slab_pair_proof_" + cfg] = "self-checking" if (self_checking and asserted) else "struct invariant"
+    return self_checking and asserted
 
 
 # ---------------------------------------------------------------------------
@@ -301,7 +334,7 @@ LEN_CHANGING = ("push", "pop", "truncate", "resize", "extend", "extend_from_slic
                 "append", "split_off", "retain", "dedup", "swap_remove", "set_len", "reserve", "shrink_to_fit")
 
 
-def run_encapsulation(rep, crate, cfg):
+def run_encapsulation(rep, crate, cfg, slab_self_checking=False):
     R = "C12-R4"
     targets = {}
     for p, a in crate.adts.items():
@@ -334,7 +367,10 @@ def run_encapsulation(rep, crate, cfg):
         for k, f, b, i, s in ctors:
             short = p.split("::")[-1]
             if f.f.get("impl_derived"):
-                if "Deserialize" in (f.f.get("impl_trait") or "") or "serde" in k:
+                if ("Deserialize" in (f.f.get("impl_trait") or "") or "serde" in k) and short == "SymbolSlab" and slab_self_checking:
+                    rep.ok(R, f.loc(), "%s: derived Deserialize may build a slab that violates the length invariant; the only unsafe "
+                           "user (get_pair_mut) checks its byte ranges itself (C12-R3), all other accessors use checked slicing" % k.split("::")[-1], None, cfg)
+                elif "Deserialize" in (f.f.get("impl_trait") or "") or "serde" in k:
                     rep.bad(R, k, "derived-deserialize", f.loc(),
                             "%s: derived Deserialize constructs %s without establishing its length invariant" % (k, short), None, cfg)
                 else:
